@@ -817,6 +817,48 @@ theorem worklist_reports_reachable_set (S : Sys σ ρ κ) (E : σ → σ → Pro
 
 end worklist
 
+/-! The hypotheses are satisfiable by a non-trivial instance. A dihalide X–R–X' under a substitution template: queue item 0 is the
+dihalide; its two mono-substituted products (keys 1, 2) are re-queued as items 1 and 2; both give the di-substituted product
+(key 3). `str` is a congruence (`Congr`, with `E` = equality of items), the loop needs 4 iterations (`work`; with less fuel it answers `none`), key 3 is reported once
+although two queue items produce it, and a depth limit of 1 stops after the first level. -/
+section worklist_example
+open ChythonModel.Model.C16W ChythonModel.Proofs.C16W
+
+def exSys : Sys (Fin 4) (Fin 4 × Fin 4) (Fin 4) where
+  step := fun s => if s = 0 then [(0, 1), (0, 2)] else if s = 1 then [(1, 3)] else if s = 2 then [(2, 3)] else []
+  key := fun r => r.2
+  stop := fun _ => false
+  succ := fun _ r => if r.2 = 1 then [1] else if r.2 = 2 then [2] else [3]
+
+example : Congr exSys (fun s s' => s = s') where
+  step_keys := by decide
+  key_cont := by
+    have : ∀ s s' : Fin 4, ∀ r ∈ exSys.step s, ∀ r' ∈ exSys.step s', exSys.key r = exSys.key r' →
+        exSys.stop r = exSys.stop r' ∧ ∀ s2 ∈ exSys.succ s r, ∃ s2' ∈ exSys.succ s' r', s2 = s2' := by decide
+    intro s s' r r' hr hr'
+    exact this s s' r hr r' hr'
+
+example : worklist exSys 10 4 [0] = some [(0, 1), (0, 2), (1, 3)] := by decide
+example : worklist exSys 10 3 [0] = none := by decide
+example : work exSys 10 (max 10 1) 0 [0] [] = 4 := by decide
+example : worklist exSys 1 1 [0] = some [(0, 1), (0, 2)] := by decide
+
+/-- the congruence hypothesis of `worklist_complete_up_to_key` cannot be dropped: items 0 and 1 yield reactions with the same
+key 5, only item 1's has a successor (item 2, key 6). The second reaction is de-duplicated, item 2 is never queued, key 6 is
+reachable (`ReachItem … 1 2`) but not reported. (For the real `Reactor` the hypothesis says: two reactions with the same
+`str(r)` have equivalent continuations — true when `str` is a canonical form of the product multiset.) -/
+def exBad : Sys (Fin 3) (Fin 3 × Fin 7) (Fin 7) where
+  step := fun s => if s = 0 then [(0, 5)] else if s = 1 then [(1, 5)] else [(2, 6)]
+  key := fun r => r.2
+  stop := fun _ => false
+  succ := fun s _ => if s = 1 then [2] else []
+
+example : worklist exBad 10 5 [0, 1] = some [(0, 5)] ∧ ReachItem exBad 10 [0, 1] 1 2 ∧ (2, 6) ∈ exBad.step 2 :=
+  ⟨by decide, ReachItem.hop (it := 1) (r := (1, 5)) (ReachItem.base (by decide)) (by decide) rfl (by decide) (by decide),
+   by decide⟩
+
+end worklist_example
+
 /-- the executable well-formedness test the driver applies to every structure (`Mol.WF`: unique keys, adjacency keyed by
 the atoms, symmetric with the same bond on both sides, no loops) implies the hypotheses of the frame theorems, and the
 adjacency `_get_deleted` reads is then undirected -/
